@@ -392,6 +392,17 @@ impl Stream {
         self.data.lock().unwrap().last_id
     }
     
+    /// Raise the last ID to `id` (restoring a stream from a dump whose top entries were deleted or
+    /// trimmed away): it only ever moves up, and the ID generator follows it.
+    pub fn raise_last_id(&self, id: StreamId) {
+        let mut data = self.data.lock().unwrap();
+        if id > data.last_id {
+            data.last_id = id;
+            self.last_id_millis.store(id.millis(), Ordering::Relaxed);
+            self.last_id_seq.store(id.seq(), Ordering::Relaxed);
+        }
+    }
+    
     /// Get length (lock-free atomic read - major performance win)
     #[inline]
     pub fn len(&self) -> usize {
